@@ -98,10 +98,21 @@ def refApprox (a : Reference) (b : Genbank.Reference) : Bool :=
   a.index == b.index && a.authors == b.authors && a.title == b.title && a.journal == b.journal
     && a.pubMed == b.pubmed && a.remark == b.remark && a.range == b.range
 
-/-- type, location TEXT (the cached text, else what `BuildLocationString` prints: the structure the
-parser derives from it is property C02's subject) and the qualifier map -/
+/-- the location STRUCTURE that `parseLocation` (property C02's model of what `Parse` does with the
+location text) derives from the text read back is the feature's `SequenceLocation` (modulo `normLoc`).
+Compared for features written from a cached text; for a structurally assembled feature the text
+`BuildLocationString` prints is compared, and the structure rests on a C02 lemma about that text that
+does not exist yet (PARTIAL) -/
+def locStructOk (a : Feature) (b : Genbank.Feature) : Bool :=
+  a.gbkLocationString == [] ||
+    match Location.parseLocation b.gbkLoc with
+    | .ok q => locBeq (normLoc q) (normLoc a.sequenceLocation)
+    | _ => false
+
+/-- type, location text (the cached text, else what `BuildLocationString` prints), location structure
+(`locStructOk`) and the qualifier map -/
 def featApprox (a : Feature) (b : Genbank.Feature) : Bool :=
-  a.type == b.type && (absFeat a).loc == b.gbkLoc && b.attrs == sortedEntries a.attributes
+  a.type == b.type && (absFeat a).loc == b.gbkLoc && locStructOk a b && b.attrs == sortedEntries a.attributes
 
 def listApprox {α β : Type} (f : α → β → Bool) : List α → List β → Bool
   | [], [] => true
